@@ -508,6 +508,48 @@ func (f *Fn) walkInl(visit func(own *Fn, n ast.Node) bool) {
 	rec(f, 2)
 }
 
+// SitesInl: the sites of sel in f, its literals and the helpers that have their sole call site there.
+func (f *Fn) SitesInl(sel Sel) []Occ {
+	var out []Occ
+	f.walkInl(func(own *Fn, n ast.Node) bool {
+		if sel.Match(f.W, own, n) {
+			out = append(out, Occ{V: -1, Node: n, Site: n, SiteFn: own})
+		}
+		return true
+	})
+	return out
+}
+
+// orForwarded: obj itself plus, when obj is a one-statement function that only forwards to another
+// function (`func (i *Iterator) seek(k []byte) { i.seekFrom(k, origin) }`), that function — a
+// caller that inlines the forwarder still does what the rule asks for.
+func (w *World) orForwarded(obj types.Object) []types.Object {
+	out := []types.Object{obj}
+	fn, ok := obj.(*types.Func)
+	if !ok {
+		return out
+	}
+	f := w.ByObj[fn]
+	if f == nil || f.Body == nil || len(f.Body.List) != 1 {
+		return out
+	}
+	var call *ast.CallExpr
+	switch s := f.Body.List[0].(type) {
+	case *ast.ExprStmt:
+		call, _ = s.X.(*ast.CallExpr)
+	case *ast.ReturnStmt:
+		if len(s.Results) == 1 {
+			call, _ = unparen(s.Results[0]).(*ast.CallExpr)
+		}
+	}
+	if call != nil {
+		if o := w.Callee(call); o != nil {
+			out = append(out, o)
+		}
+	}
+	return out
+}
+
 // isCallTo: e is a call whose resolved callee is obj.
 func (w *World) isCallTo(e ast.Expr, obj types.Object) bool {
 	if obj == nil || e == nil {
